@@ -290,7 +290,7 @@ def engine(pid, spec, tier, ws, out, log_dir, known):
             if pid == "C08":
                 f2, q = C.counter_checks(ps, e2.ctx, e2.get_solver())
                 findings += f2
-            if tier == "thorough" or pid in ("C07", "C08", "C04"):
+            if tier == "thorough" or pid in ("C07", "C08", "C04", "C03"):
                 e2.validate_traces([p for p in ps], lambda p, c: C.ga_scenario(p, c, strict=True), limit=60 if tier == "thorough" else 25)
         if "make_credential" in todo:
             ps = e2.run_paths("mc", "authenticator::make_credential", "make_credential::{closure#0}")
